@@ -649,26 +649,58 @@ func check(id, tier string, keep bool, runsOverride, secsOverride int64) int {
 		}
 		h := sha256.Sum256([]byte(sig))
 		path := filepath.Join(verifDir, "replays", fmt.Sprintf("%s-%x-%d.json", id, h[:4], seed))
-		b, _ := json.MarshalIndent(best, "", " ")
-		os.WriteFile(path, b, 0o644)
-		// confirm in a fresh process
-		rj := job{Mode: "replay", File: path}
-		if sp.Race {
-			rj.Repeat = 6
+		// confirm in a fresh process: the smallest record first; when a minimised form does not reproduce there
+		// (it was minimised inside the worker that found it, with that process's history), the case as found
+		confirm := func(rec map[string]any) (bool, string) {
+			b, _ := json.MarshalIndent(rec, "", " ")
+			os.WriteFile(path, b, 0o644)
+			rj := job{Mode: "replay", File: path}
+			if sp.Race {
+				rj.Repeat = 6
+			}
+			rr := runWorker(worker, dir, 1000+violations, rj, 2, sp.Race)
+			extra := postProcess(sp, rr)
+			ok := false
+			if rr.replay != nil {
+				ok, _ = rr.replay["reproduced"].(bool)
+			}
+			for _, e := range extra {
+				if e["expected_signature"] == sig {
+					ok = true
+				}
+			}
+			return ok, tail(rr.stderr, 30)
 		}
-		rr := runWorker(worker, dir, 1000+violations, rj, 2, sp.Race)
-		extra := postProcess(sp, rr)
-		ok := false
-		if rr.replay != nil {
-			ok, _ = rr.replay["reproduced"].(bool)
-		}
-		for _, e := range extra {
-			if e["expected_signature"] == sig {
-				ok = true
+		ok, errTail := confirm(best)
+		if !ok {
+			for k, rec := range recs {
+				if k >= 3 || ok {
+					break
+				}
+				ow, has := rec["original_workload"]
+				if need, _ := rec["_needs_record"].(bool); need || !has {
+					continue
+				}
+				orig := map[string]any{}
+				for key, v := range rec {
+					orig[key] = v
+				}
+				orig["workload"], orig["sched"], orig["minimised"] = ow, rec["original_sched"], false
+				if d, _ := rec["original_detail"].(string); d != "" {
+					orig["detail"] = d
+				}
+				orig["minimisation_note"] = "the minimised form reproduced only inside the worker process that found it; this is the case as the search found it"
+				delete(orig, "original_workload")
+				delete(orig, "original_sched")
+				delete(orig, "original_detail")
+				delete(orig, "trace")
+				if ok, _ = confirm(orig); ok {
+					best = orig
+				}
 			}
 		}
 		if !ok {
-			fmt.Fprintf(os.Stderr, "verif: UNCONFIRMED: signature %q did not reproduce from %s in a fresh process (tooling trouble, not a verdict)\n%s\n", sig, path, tail(rr.stderr, 30))
+			fmt.Fprintf(os.Stderr, "verif: UNCONFIRMED: signature %q did not reproduce from %s in a fresh process (tooling trouble, not a verdict)\n%s\n", sig, path, errTail)
 			trouble = true
 			continue
 		}
